@@ -202,7 +202,32 @@ def _ref_await_started(tctx, env, outs, args, p, idx):
     tctx['log'][_key(idx)] = (None, tctx['family'].plain(env[src]))
 
 
+async def _eff_caught_raise(ctx, idx, outs, args, p):
+    """An MPyC coroutine that raises before its first await; the program catches the exception and goes on
+    (documented behaviour of e.g. mpc.indexOf([], a) -> ValueError)."""
+    rt = ctx.rt
+    how = p.get('how')
+    try:
+        if how == 'indexOf':
+            rt.indexOf([], ctx.env[args[0]])
+        else:
+            from mpyc import asyncoro
+
+            @asyncoro.mpc_coro
+            async def user_raiser(x):
+                if x is not None:
+                    raise ValueError('user coroutine rejects its argument before the first await')
+                await rt.returnType(type(x))
+
+            user_raiser(ctx.env[args[0]])
+    except ValueError:
+        pass
+    else:
+        raise AssertionError('caught_raise: no exception')
+
+
 EFFECTS = {
+    'caught_raise': _eff_caught_raise,
     'sleep0': _eff_sleep0,
     'delay': _eff_delay,
     'gather': _eff_gather,
